@@ -27,6 +27,8 @@ def pick_value(rng):
         return 0
     if r < 0.16:
         return rng.randint(1, 6) + rng.choice([2 ** 31, 2 ** 32, 2 ** 63])
+    if r < 0.175:
+        return 2 ** 64 - 1000          # the deep-copy callback (v + 1000, 64-bit) maps it to 0 = NULL
     if r < 0.20:
         return rng.choice([2 ** 64 - 1, 2 ** 64 - 2, 2 ** 64 - 7, 2 ** 64 - 1000, 2 ** 63 - 1, 2 ** 63, 2 ** 32 - 1, 2 ** 32,
                            2 ** 31 - 1, 2 ** 31, 2 ** 63 + 2 ** 32 + 3])
